@@ -23,7 +23,7 @@ def parseObs (kv : List (String × String)) : Option Obs := do
 def parseProcObs (kv : List (String × String)) : Option ProcObs := do
   pure { rc := getS kv "rc", total := ← getN? kv "total", fired := ← getN? kv "fired", disc := ← getN? kv "disc",
          bad := ← getN? kv "bad", served := ← getN? kv "served", minDisc := ← getN? kv "mindisc",
-         recv := ← getN? kv "recv", errs := ← getN? kv "errs",
+         recv := ← getN? kv "recv", errs := ← getN? kv "errs", why := getS kv "why" "-",
          pools := ← (splitList (getS kv "pp") ",").mapM fun q =>
            match q.splitOn ":" with
            | [f, d, b] => do pure (← f.toNat?, ← d.toNat?, ← b.toNat?)
